@@ -324,6 +324,58 @@ BinOp(op, l, r) ==
     [] op \in LogicOps -> Logic(op, l, r)
     [] op \in MatchOps -> Match(op, l, r)
 
+\* ------------------------------------------------- composed expressions
+\* An expression tree is a leaf [t |-> "leaf", v, id], a unary node [t |-> "un", op, e] or a
+\* binary node [t |-> "bin", op, l, r].  An operator node is applied to the RESULTS of its
+\* operand expressions: the meaning of `!(a == b)` is UnOp("!", .) of the result of the cell
+\* a == b, whatever that cell is -- it is NOT the cell a != b (the two differ when an operand
+\* is unset: both cells are false).  Evaluation goes left to right, stops at the first
+\* runtime error, and skips the right operand of && and || when the left one decides.
+\* The result carries m, the ids of the leaves evaluated, in order.
+\*
+\* The exact arithmetic of this module takes operands n * 2^e with |n| < 2^6 (32-bit TLC
+\* integers), and the decimal text of a number is the exact expansion only for short
+\* numbers.  Where the result of an inner node is outside that range, or is not fixed by the
+\* statement, the value of the nodes above it is left open (Unfixed), never guessed.
+SigDigits(t) == SelectSeq(t, LAMBDA c : c # "." /\ c # "-")
+SigCountOf(ds, nzs) == IF nzs = {} THEN 0 ELSE SetMax(nzs) - SetMin(nzs) + 1
+SigCount(t) == SigCountOf(SigDigits(t), {i \in 1..Len(SigDigits(t)) : SigDigits(t)[i] # "0"})
+\* the text of x is its exact expansion: integers below 2^53, fractions of at most 15 significant digits
+TextOK(x) == IsZero(x) \/ (x.d = 1 /\ ((x.e >= 0 /\ x.e <= 47) \/ (x.e < 0 /\ x.e >= -30 /\ SigCount(ExactText(x)) <= 15)))
+UsesText(op, other) == op \in {"~", "!~"} \/ (op = "+" /\ other.k = "str")
+\* may the result v of the sub-expression e be an operand of op (the other operand being `other`)?
+OperandOK(op, e, v, other) ==
+  \/ e.t = "leaf"
+  \/ /\ v.k \notin {"sum", "unfixed"}
+     /\ v.k = "num" => Abs(v.n) < 64 /\ v.d = 1 /\ (UsesText(op, other) => TextOK(v))
+     \* (the range of the model's parser of numeric strings; a decimal fraction that is not a double would be rounded twice)
+     /\ v.k = "str" => (Cardinality({i \in 1..Len(v.s) : v.s[i] \in Digit}) <= 8 /\ (\A i \in 1..Len(v.s) : v.s[i] \notin {"e", "E"})
+                        /\ ParsedOrZero(ParseNum(v.s)).d = 1)
+TR(ok, v, m) == [ok |-> ok, v |-> v, m |-> m]
+WithMarks(res, m) == IF res.ok THEN TR(TRUE, res.v, m) ELSE TR(FALSE, [k |-> "null"], m)
+RECURSIVE EvalTree(_)
+EvalBinRight(t, a, b) ==                    \* a, b: the results of both operands (b evaluated after a)
+  IF ~b.ok THEN TR(FALSE, [k |-> "null"], a.m \o b.m)
+  ELSE IF ~OperandOK(t.op, t.l, a.v, b.v) \/ ~OperandOK(t.op, t.r, b.v, a.v) THEN TR(TRUE, [k |-> "unfixed"], a.m \o b.m)
+  ELSE IF t.op \in MatchOps /\ b.v.k \in {"str", "regex"} /\ ~PatDefined(b.v.s) THEN TR(TRUE, [k |-> "unfixed"], a.m \o b.m)   \* a computed pattern the RE2 table does not list
+  ELSE WithMarks(BinOp(t.op, a.v, b.v), a.m \o b.m)
+EvalBinLeft(t, a) ==
+  IF ~a.ok THEN a
+  ELSE IF ~OperandOK(t.op, t.l, a.v, [k |-> "null"]) THEN TR(TRUE, [k |-> "unfixed"], a.m)      \* (whether the right side runs is open too)
+  ELSE IF ~EvalsRight(t.op, a.v) THEN TR(TRUE, VBool(t.op = "||"), a.m)
+  ELSE EvalBinRight(t, a, EvalTree(t.r))
+EvalUnOf(t, a) ==
+  IF ~a.ok THEN a
+  ELSE IF ~OperandOK(t.op, t.e, a.v, [k |-> "null"]) THEN TR(TRUE, [k |-> "unfixed"], a.m)
+  ELSE WithMarks(UnOp(t.op, a.v), a.m)
+EvalTree(t) ==
+  CASE t.t = "leaf" -> TR(TRUE, t.v, <<t.id>>)
+    [] t.t = "un" -> EvalUnOf(t, EvalTree(t.e))
+    [] t.t = "bin" -> EvalBinLeft(t, EvalTree(t.l))
+Leaf(v, id) == [t |-> "leaf", v |-> v, id |-> id]
+UnNode(op, e) == [t |-> "un", op |-> op, e |-> e]
+BinNode(op, l, r) == [t |-> "bin", op |-> op, l |-> l, r |-> r]
+
 \* ======================================================================
 \* Methods (DESIGN.md 4.4, property C16)
 \* ======================================================================
@@ -334,10 +386,6 @@ IsByteIn(b, str) == \E i \in 1..Len(str) : SubSeq(str, i, i) = b
 IdxIn(b, str) == CHOOSE i \in 1..Len(str) : SubSeq(str, i, i) = b
 UpperByte(b) == IF Len(b) = 1 /\ IsByteIn(b, LowerAZ) THEN SubSeq(UpperAZ, IdxIn(b, LowerAZ), IdxIn(b, LowerAZ)) ELSE b
 LowerByte(b) == IF Len(b) = 1 /\ IsByteIn(b, UpperAZ) THEN SubSeq(LowerAZ, IdxIn(b, UpperAZ), IdxIn(b, UpperAZ)) ELSE b
-\* ASCII letters are mapped, every other byte is unchanged (non-ASCII case mapping is outside the model)
-Upper(s) == [i \in 1..Len(s) |-> UpperByte(s[i])]
-Lower(s) == [i \in 1..Len(s) |-> LowerByte(s[i])]
-
 \* UTF-8: a continuation byte is 0x80..0xBF
 IsCont(b) == Len(b) = 2 /\ ByteCode(b) >= 128 /\ ByteCode(b) < 192
 RECURSIVE CharsOf(_)
@@ -345,6 +393,31 @@ CharsOf(s) ==                    \* the characters (UTF-8 sequences) of a well-f
   IF s = <<>> THEN <<>>
   ELSE LET j == CHOOSE j \in 1..Len(s) : (j = Len(s) \/ ~IsCont(s[j + 1])) /\ \A m \in 2..j : IsCont(s[m])
        IN <<SubSeq(s, 1, j)>> \o CharsOf(SubSeq(s, j + 1, Len(s)))
+
+\* Case mapping acts on CHARACTERS, one by one, whatever else the text holds: the ASCII letters by
+\* range, the non-ASCII characters the models use by the table below (character, upper, lower: the
+\* simple case mappings of the Unicode Character Database -- leaf facts, cross-checked by the
+\* harness); a character that is not listed has no case and is unchanged.  The table holds letters of
+\* every kind that has a mapping: lower/upper pairs of 2, 3 and 4 bytes, a titlecase digraph (neither
+\* lower nor upper case, both mappings change it), letter numbers, symbols, a combining mark.
+HB(h) == [i \in 1..(Len(h) \div 2) |-> SubSeq(h, 2 * i - 1, 2 * i)]          \* "C3A9" -> <<"C3", "A9">>
+CaseTable ==
+  {<<HB("C3A9"), HB("C389"), HB("C3A9")>>, <<HB("C389"), HB("C389"), HB("C3A9")>>,                  \* U+00E9 / U+00C9
+   <<HB("C785"), HB("C784"), HB("C786")>>, <<HB("C784"), HB("C784"), HB("C786")>>, <<HB("C786"), HB("C784"), HB("C786")>>,   \* U+01C5 (titlecase), U+01C4, U+01C6
+   <<HB("E285B7"), HB("E285A7"), HB("E285B7")>>, <<HB("E285A7"), HB("E285A7"), HB("E285B7")>>,      \* U+2177 / U+2167 roman numeral eight
+   <<HB("E29390"), HB("E292B6"), HB("E29390")>>, <<HB("E292B6"), HB("E292B6"), HB("E29390")>>,      \* U+24D0 / U+24B6 circled a
+   <<HB("CD85"), HB("CE99"), HB("CD85")>>, <<HB("CE99"), HB("CE99"), HB("CEB9")>>, <<HB("CEB9"), HB("CE99"), HB("CEB9")>>,   \* U+0345 (combining), U+0399, U+03B9
+   <<HB("CF89"), HB("CEA9"), HB("CF89")>>, <<HB("CEA9"), HB("CEA9"), HB("CF89")>>,                  \* U+03C9 / U+03A9
+   <<HB("D18F"), HB("D0AF"), HB("D18F")>>, <<HB("D0AF"), HB("D0AF"), HB("D18F")>>,                  \* U+044F / U+042F
+   <<HB("F09090A8"), HB("F0909080"), HB("F09090A8")>>, <<HB("F0909080"), HB("F0909080"), HB("F09090A8")>>}   \* U+10428 / U+10400
+CaseRows(c) == {r \in CaseTable : r[1] = c}
+CaseOf(c, rows, col) == IF rows = {} THEN c ELSE (CHOOSE r \in rows : TRUE)[col]
+UpperChar(c) == IF Len(c) = 1 THEN <<UpperByte(c[1])>> ELSE CaseOf(c, CaseRows(c), 2)
+LowerChar(c) == IF Len(c) = 1 THEN <<LowerByte(c[1])>> ELSE CaseOf(c, CaseRows(c), 3)
+UpperChars(cs) == FlattenSeq([i \in 1..Len(cs) |-> UpperChar(cs[i])])
+LowerChars(cs) == FlattenSeq([i \in 1..Len(cs) |-> LowerChar(cs[i])])
+Upper(s) == UpperChars(CharsOf(s))
+Lower(s) == LowerChars(CharsOf(s))
 
 \* split at the leftmost non-overlapping occurrences of a non-empty separator;
 \* the empty separator splits into characters
@@ -383,4 +456,42 @@ SetKeyH(h, id, key, v) == [h EXCEPT ![id] = [kk \in DOMAIN h[id] \cup {key} |-> 
 \* num() of a number is not fixed by the statement; other kinds: see MC_Methods
 ParsedOrNull(p) == IF p.ok THEN p.v ELSE VNull
 NumBuiltin(v) == IF v.k = "str" THEN ParsedOrNull(ParseNum(v.s)) ELSE [k |-> "unfixed"]
+
+\* writes through a member:  o.k = 99   o.k += 1   o.k -= 1   o.k++   ++o.k   o.k--   --o.k
+\* (a member that does not exist reads as null; the stored value follows the operator tables)
+MemberWrites == {"set", "add", "sub", "postinc", "preinc", "postdec", "predec"}
+OldOf(o, key) == IF key \in DOMAIN o THEN o[key] ELSE VNull
+WrittenVal(w, old) ==
+  CASE w = "set" -> I(99)
+    [] w = "add" -> Arith("+", old, I(1)).v
+    [] w = "sub" -> Arith("-", old, I(1)).v
+    [] w \in {"postinc", "preinc"} -> IncDec("++", TRUE, old).stored
+    [] w \in {"postdec", "predec"} -> IncDec("--", TRUE, old).stored
+WriteH(h, id, key, w) == SetKeyH(h, id, key, WrittenVal(w, OldOf(h[id], key)))
+
+\* ----- numeric strings of ANY length.  ParseNum above computes with TLC's 32-bit integers; this
+\* second reading of the same grammar keeps the digits: the value of [neg, ds, e10] is
+\* (-1)^neg * (the integer whose decimal digits are ds) * 10^e10, ds without leading zeros
+\* (<<>> is zero).  num() returns the double nearest to it (the rounding is the harness's, math/big).
+RECURSIVE StripZeros(_)
+StripZeros(ds) == IF ds # <<>> /\ Head(ds) = "0" THEN StripZeros(Tail(ds)) ELSE ds
+ParseDec(s) ==
+  LET i0 == IF Len(s) >= 1 /\ s[1] \in {"+", "-"} THEN 2 ELSE 1
+      i1 == SpanDigits(s, i0)
+      dot == i1 <= Len(s) /\ s[i1] = "."
+      i2 == IF dot THEN SpanDigits(s, i1 + 1) ELSE i1
+      intd == SubSeq(s, i0, i1 - 1)
+      frac == IF dot THEN SubSeq(s, i1 + 1, i2 - 1) ELSE <<>>
+      hasE == i2 <= Len(s) /\ s[i2] \in {"e", "E"}
+      esign == hasE /\ i2 + 1 <= Len(s) /\ s[i2 + 1] \in {"+", "-"}
+      j0 == IF esign THEN i2 + 2 ELSE i2 + 1
+      j1 == IF hasE THEN SpanDigits(s, j0) ELSE i2
+      expd == IF hasE THEN SubSeq(s, j0, j1 - 1) ELSE <<>>
+  IN IF Len(intd) + Len(frac) = 0 \/ (hasE /\ expd = <<>>) \/ j1 # Len(s) + 1 THEN [ok |-> FALSE]
+     ELSE [ok |-> TRUE, neg |-> (Len(s) >= 1 /\ s[1] = "-"), ds |-> StripZeros(intd \o frac),
+           e10 |-> (IF esign /\ s[i2 + 1] = "-" THEN -1 ELSE 1) * DigitsValue(expd) - Len(frac)]
+VDec(p) == [k |-> "dec", neg |-> p.neg, ds |-> p.ds, e10 |-> p.e10]
+NumBuiltinDec(v) == IF v.k # "str" THEN [k |-> "unfixed"] ELSE IF ParseDec(v.s).ok THEN VDec(ParseDec(v.s)) ELSE VNull
+\* the same number in the 32-bit representation (short digit strings only)
+DecAsNum(p) == PValue(p.neg, DigitsValue(p.ds), p.e10).v
 =============================================================================
